@@ -15,7 +15,7 @@ pub fn make_config(fri: &crate::kit::FriSc) -> SC {
     let perm = default_perm();
     let hash = MyHash::new(perm.clone());
     let compress = MyCompress::new(perm.clone());
-    let val_mmcs = MyMmcs::new(hash, compress, 0);
+    let val_mmcs = MyMmcs::new(hash, compress, CAP_HEIGHT);
     let challenge_mmcs = ChallengeMmcs::new(val_mmcs.clone());
     let fri_params = p3_fri::FriParameters {
         log_blowup: fri.log_blowup,
@@ -135,6 +135,8 @@ where
         Err(p) => return vec![(EP.to_string(), p)],
     };
     let mut out = vec![(EP.to_string(), CircV::Accept)];
+    // C15: structural hash of the circuit the builder returned (carried in a `Precond` entry)
+    out.push((format!("{EP}#fingerprint"), CircV::Precond(format!("{:016x}", circuit_fingerprint(&circuit)))));
     let run = guard_circ("build_next_layer_circuit+run", || -> CircV {
         let pubs = match vr.pack_public_inputs(prev) {
             Ok(p) => p,
